@@ -208,7 +208,7 @@ impl<'input> Parser<'input> {
         {
             self.recursion_limit.traced = true;
         }
-        grammar::ty::ty(&mut self);
+        grammar::ty::standalone_ty(&mut self);
 
         let builder = Rc::try_unwrap(self.builder)
             .expect("More than one reference to builder left")
@@ -477,12 +477,20 @@ impl<'input> Parser<'input> {
     /// This allows for us to not have to always close nodes when we are parsing
     /// tokens.
     pub(crate) fn start_node(&mut self, kind: SyntaxKind) -> NodeGuard {
-        self.push_ignored();
+        // A tree has exactly one root: ignored and error tokens seen before the root node
+        // is started (possible with the standalone entry points) go inside of it.
+        let at_root = self.builder.borrow().at_root();
+        if !at_root {
+            self.push_ignored();
+        }
 
         #[cfg(apollo_rs_verif)]
         crate::verif_trace::emit("Start", kind as u64, 0, 0);
         self.builder.borrow_mut().start_node(kind);
         let guard = NodeGuard::new(self.builder.clone());
+        if at_root {
+            self.push_ignored();
+        }
         self.skip_ignored();
 
         guard
